@@ -632,7 +632,7 @@ func loadContractFile(file string, out map[string]*FuncContract) error {
 			// ghost-at call f#k: Lval, Lval   -- the ghost state of an object allocated by this
 			// function is given its initial value just before that call
 			i := -1
-			if m := regexp.MustCompile(`#\d+:`).FindStringIndex(rest); m != nil {
+			if m := regexp.MustCompile(`(#\d+|^end loop \d+):`).FindStringIndex(rest); m != nil {
 				i = m[1] - 1 // the colon that follows the site's ordinal (a stmt site may contain `:=`)
 			}
 			if i < 0 {
